@@ -110,8 +110,7 @@ def handler_denies(h, prog=None, f=None, region=None):
             # denial: judge the handler by the paths of those callers
             if prog is not None and f is not None and region is not None:
                 callers = [g for g in region.values() if g is not f and any(
-                    isinstance(c, ast.Call) and prog.callee_of(g, c) is f
-                    for c in walk_no_nested(g.node))]
+                    h2 is f for _n, h2 in prog.callees(g))]
                 if callers:
                     for g in callers:
                         ok, why = _exits_after_handler_deny(
